@@ -373,7 +373,7 @@ func run(c *core.Ctx) {
 			w.fire(x, c.S.Fault(3))
 			continue
 		}
-		c.Fail("HARNESS.stuck", "no event to inject but tasks are not done: %s", c.S.StalledString())
+		c.Stuck("no event to inject but tasks are not done: %s", c.S.StalledString())
 		return
 	}
 	if !w.cont && w.winner != nil {
